@@ -132,6 +132,16 @@ impl LinkFlowState<role::ReceiverMarker> {
 }
 
 impl LinkFlowState<role::SenderMarker> {
+    /// A new link endpoint is created when a detached link is attached again: the attach
+    /// announces the current delivery-count as the initial-delivery-count and the receiver has
+    /// not issued any credit for the new attachment yet
+    pub(crate) fn on_reattach(&self) {
+        let mut state = self.lock.write();
+        state.initial_delivery_count = state.delivery_count;
+        state.link_credit = 0;
+        state.drain = false;
+    }
+
     /// Handles incoming Flow frame
     ///
     /// If an echo (reply with the local flow state) is requested, return an `Ok(Some(Flow))`,
